@@ -13,6 +13,7 @@ type Profile struct {
 	Collisions   bool // occasionally name an existing active/view key (or the key itself) as the target
 	EmptyTarget  bool // occasionally use the empty string as target (internal commit fails with a non-AlreadyExists error)
 	RestoreFails bool // reopen may fail some restore mounts (always together with AllowInvalidMountsOnRestart)
+	InjectAtMount bool // occasionally let "another caller" create a key equal to the target name while the backend Mount runs
 	CrashHistory bool // C09 profile: more creation/commit/removal, fewer read-only operations
 }
 
@@ -107,6 +108,7 @@ func (g *Gen) Next(m *Model, mounted []string) Op {
 		} else {
 			op.Key = g.freshKey()
 		}
+		fresh := false
 		if r.Chance(60, 100) {
 			op.HasTarget = true
 			y := r.Intn(100)
@@ -119,12 +121,17 @@ func (g *Gen) Next(m *Model, mounted []string) Op {
 				op.Target = op.Key
 			case y < 70 && len(freeNames) > 0:
 				op.Target = g.pick(freeNames)
+				fresh = true
 			case len(usedNames) > 0:
 				op.Target = g.pick(usedNames)
 			default:
 				op.Target = g.pick(freeNames)
 			}
 			op.MountFail = r.Chance(30, 100)
+			if g.P.InjectAtMount && fresh && r.Chance(25, 100) {
+				op.MountFail = false
+				op.Inject = r.PickS("prepare", "view")
+			}
 		}
 		op.CheckFail = r.Chance(6, 100)
 		return op
